@@ -13,6 +13,7 @@
    What is proved on the complement of these classes is named _partial. *)
 From Coq Require Import List NArith Bool.
 From PV Require Import Client.Fees Proofs.Fees_proofs.
+From PV Require Codec.Ops Proofs.Ops_proofs.
 Import ListNotations.
 Local Open Scope N_scope.
 
@@ -82,6 +83,14 @@ Proof.
   exact fill_big_node_limit_underpays.
 Qed.
 Print Assumptions C24_fill_node_limit_refuted.
+
+(* the abstract content of the fee model is not an assumption: for every manager content of the operation
+   codec (Codec/Ops.v, C06) the model's [size] is the length of the bytes pytezos forges for it *)
+Theorem C24_size_is_forged_size : forall h op,
+  length (snd (Ops.source h)) = 20%nat ->
+  N.of_nat (length (Ops.forge_operation (Ops.CManager h op))) = size (Ops_proofs.fees_abstract h op).
+Proof. exact Ops_proofs.fees_size_is_forged_size. Qed.
+Print Assumptions C24_size_is_forged_size.
 
 (* non-vacuity: a two-transfer batch through autofill; fee 460 on content 0 against a minimum of 339 *)
 Example C24_example :
